@@ -33,7 +33,11 @@ fn rename(e: &Exp, from: &str, to: &str) -> Exp {
 fn collision_case(r: &mut Rng) -> Case {
     let v = |n: &str| Exp::Variable(n.into());
     let k = |x: f64| Exp::Number(x);
-    let (aux, aux_ty, trigger): (&str, VariableType, Exp) = match r.below(8) {
+    let (aux, aux_ty, trigger): (&str, VariableType, Exp) = match r.below(12) {
+        8 => ("$min_0", VariableType::Real(-3.0, 3.0), Exp::BinOp(BinOp::Add, Box::new(Exp::Min(vec![v("z"), v("y")])), Box::new(k(0.0)))),
+        9 => ("$max_0_select_0", VariableType::Boolean, Exp::BinOp(BinOp::Add, Box::new(Exp::Max(vec![v("z"), v("y")])), Box::new(k(0.0)))),
+        10 => ("$min_0_select_1", VariableType::Boolean, Exp::BinOp(BinOp::Add, Box::new(Exp::Min(vec![v("z"), v("y")])), Box::new(k(0.0)))),
+        11 => ("$and_1", VariableType::Boolean, Exp::BinOp(BinOp::Add, Box::new(Exp::And(vec![v("a"), Exp::And(vec![v("b"), v("a")])])), Box::new(Exp::BinOp(BinOp::Add, Box::new(Exp::And(vec![v("b"), v("a")])), Box::new(v("y")))))),
         0 => ("$or_0", VariableType::Boolean, Exp::BinOp(BinOp::Add, Box::new(Exp::Or(vec![v("a"), v("b")])), Box::new(v("y")))),
         1 => ("$and_0", VariableType::Boolean, Exp::BinOp(BinOp::Add, Box::new(Exp::And(vec![v("a"), v("b")])), Box::new(v("y")))),
         2 => ("$xor_0", VariableType::Boolean, Exp::BinOp(BinOp::Add, Box::new(Exp::Xor(Box::new(v("a")), Box::new(v("b")))), Box::new(v("y")))),
@@ -158,6 +162,51 @@ fn permutation_case(r: &mut Rng, tag: &str, cfg: &ModelCfg) -> Case {
     c
 }
 
+fn has_huge_literal(e: &Exp) -> bool {
+    match e {
+        Exp::Number(v) => v.is_finite() && (v.abs() >= 1e100 || (*v != 0.0 && v.abs() <= 1e-100)),
+        Exp::Variable(_) => false,
+        Exp::Abs(x) | Exp::Not(x) | Exp::UnOp(_, x) => has_huge_literal(x),
+        Exp::Min(es) | Exp::Max(es) | Exp::And(es) | Exp::Or(es) => es.iter().any(has_huge_literal),
+        Exp::Xor(x, y) | Exp::Implies(x, y) | Exp::Iff(x, y) | Exp::BinOp(_, x, y) => has_huge_literal(x) || has_huge_literal(y),
+    }
+}
+
+/// finite literals whose folded product / quotient leaves the range of f64: the exact-arithmetic theorem
+/// `finite_out_partial` cannot see this region (root-cause flag `huge-literal`).
+fn overflow_case(r: &mut Rng) -> Case {
+    let v = |n: &str| Exp::Variable(n.into());
+    let k = |x: f64| Exp::Number(x);
+    let mul = |a: Exp, b: Exp| Exp::BinOp(BinOp::Mul, Box::new(a), Box::new(b));
+    let div = |a: Exp, b: Exp| Exp::BinOp(BinOp::Div, Box::new(a), Box::new(b));
+    let add = |a: Exp, b: Exp| Exp::BinOp(BinOp::Add, Box::new(a), Box::new(b));
+    let big = |r: &mut Rng| *r.pick(&[1e200, 1e300, -1e250, 1e154, 1e155, 1.7e308, -1e308]);
+    let tiny = |r: &mut Rng| *r.pick(&[1e-200, 1e-300, -1e-250, 5e-324]);
+    let lhs = match r.below(6) {
+        0 => mul(k(big(r)), mul(k(big(r)), v("x"))),
+        1 => div(div(v("x"), k(tiny(r))), k(tiny(r))),
+        2 => add(mul(k(big(r)), v("x")), mul(k(big(r)), v("x"))),
+        3 => mul(mul(k(big(r)), k(big(r))), v("y")),
+        4 => add(v("x"), mul(k(big(r)), k(big(r)))),
+        _ => mul(k(big(r)), add(mul(k(big(r)), v("x")), v("y"))),
+    };
+    let rhs = if r.chance(1, 4) { mul(k(big(r)), k(big(r))) } else { k(1.0) };
+    let ds = vec![
+        VarDecl { name: "x".into(), ty: VariableType::NonNegativeReal(0.0, f64::INFINITY) },
+        VarDecl { name: "y".into(), ty: VariableType::Real(-3.0, 3.0) },
+    ];
+    let cmp = *r.pick(&[Comparison::LessOrEqual, Comparison::GreaterOrEqual, Comparison::Equal]);
+    let cons = vec![Constraint::new(lhs, cmp, rhs, if r.chance(1, 2) { "big".into() } else { String::new() })];
+    let obj = if r.chance(1, 4) { mul(k(big(r)), mul(k(big(r)), v("x"))) } else { v("x") };
+    let m = gen_model::build(OptimizationType::Min, obj, cons, &ds);
+    let huge = std::iter::once(&m.objective().rhs).chain(m.constraints().iter().flat_map(|c| [c.lhs(), c.rhs()])).any(has_huge_literal);
+    let mut c = crate::props::c01::one(&m, "overflow", "c08");
+    if huge {
+        c.sig = Some(match c.sig.take() { Some(s) => format!("{},huge-literal", s), None => "huge-literal".into() });
+    }
+    c
+}
+
 pub fn generate(seed: u64, n: usize, thorough: bool, corpus: Option<&str>) -> Vec<Case> {
     let mut out = crate::props::c01::generate_for("c08", seed.wrapping_add(2000), n, thorough, corpus);
     let mut r = Rng::new(seed ^ 0xC08).fork();
@@ -176,6 +225,7 @@ pub fn generate(seed: u64, n: usize, thorough: bool, corpus: Option<&str>) -> Ve
         let (tag, cfg) = &cfgs[i % cfgs.len()];
         out.push(permutation_case(&mut r, tag, cfg));
     }
+    for _ in 0..(n / 20).max(20) { out.push(overflow_case(&mut r)); }
     let _ = sx::num;
     out
 }
